@@ -1103,7 +1103,10 @@ impl History {
         }
         let n = self.rng.range(1, 3);
         for i in 0..n {
-            let p = match self.rng.below(5) {
+            // (what follows a fatal packet has no defined effect on its own connection, so a DISCONNECT there would make
+            // the fate of that connection's will undefined: only will-less connections send one)
+            let kinds = if self.will_of(link).is_some() { 4 } else { 5 };
+            let p = match self.rng.below(kinds) {
                 0 => Packet::PingReq(PingReq),
                 // (a DISCONNECT that reaches somebody else takes that client's will away and closes it)
                 4 => Packet::Disconnect(Disconnect { reason_code: DisconnectReasonCode::NormalDisconnection }, None),
